@@ -103,15 +103,27 @@ def run(ctx):
 
 
 def success_value(t):
-    """value of a fallible expression on its success path: try(match r { Err(_) => Err(..), Ok(v) => X }) -> X with the
-    leaves' Ok(..) removed (an error arm leaves through `?` and chooses nothing)"""
-    if t[0] != "try":
-        return t
-    m = t[1]
-    if m[0] == "match":
-        arms = [(p_, b_) for p_, b_ in m[2:] if not (p_[0] == "ptstruct" and p_[1].endswith("::Err"))]
-        if len(arms) == 1 and arms[0][0][0] == "ptstruct" and arms[0][0][1].endswith("::Ok"):
-            return map_leaves(arms[0][1], lambda x: x[2] if x[0] == "call" and x[1].endswith("::Ok") and len(x) == 3 else x)
+    """value of a fallible expression on its success path: `try(match r { Err(_) => Err(..), Ok(v) => X })`,
+    `match r { Ok(v) => X, Err(_) => return Err(..) }` or its if-let spelling -> X, with the leaves' Ok(..) removed when
+    the whole went through `?` (an error arm leaves the function and chooses nothing)"""
+    tried = False
+    for _ in range(6):
+        if t[0] == "try":
+            t = t[1]
+            tried = True
+            continue
+        if t[0] == "match":
+            arms = [(p_, b_) for p_, b_ in t[2:] if not (p_[0] == "ptstruct" and p_[1].endswith("::Err"))]
+            if len(arms) == 1 and arms[0][0][0] == "ptstruct" and arms[0][0][1].endswith("::Ok"):
+                t = arms[0][1]
+                continue
+        if t[0] == "if" and t[1][0] == "iflet" and t[1][1][0] == "ptstruct" and t[1][1][1].endswith("::Ok") \
+                and t[3][0] in ("ret", "none") :
+            t = t[2]
+            continue
+        break
+    if tried:
+        return map_leaves(t, lambda x: x[2] if x[0] == "call" and x[1].endswith("::Ok") and len(x) == 3 else x)
     return t
 
 
@@ -369,6 +381,11 @@ def refusal_audit(ctx):
                     pn = (g["pat"].get("path") or "").split("::")[-1]
                     if (pn == "Err" and pol) or (pn == "Ok" and not pol):
                         rewrap = True
+            for g, pol in fv.guards(n):
+                gt = fv.term(g)
+                if gt[0] == "call" and gt[1].split("::")[-1] in ("is_err", "is_ok") and gt[1].startswith(("std::", "core::")):
+                    if (gt[1].endswith("is_err") and pol) or (gt[1].endswith("is_ok") and not pol):
+                        rewrap = True          # `if r.is_err() { return Err(msg) }`
             for a in fv.ancestors(n):
                 if a.get("k") == "match":
                     for arm in a["arms"]:
